@@ -229,3 +229,18 @@ Example C05_optimal_graph_example :
   pr_sv nat Nat.eqb g_fams g_rprio g_tprio 2 gS = 2%Z /\
   gprio nat g_rprio g_tprio (DN nat g_r0 [DN nat g_ra [DL nat 0 7]]) = 1%Z.
 Proof. vm_compute. repeat split; reflexivity. Qed.
+
+(* Not proved (kept as a statement): the coded single-visit WALK of ForestSumVisitor (Forest/GraphSum.v [svw]: visited
+   set, path, packed priorities computed at visit_packed_node_out from what the children carry at that moment)
+   leaves, on an acyclic closed forest, exactly the annotation pr_sv / prf_sv that C05_optimal_graph_walk uses.
+   Tied on every run: the walk model = node.priority / packed.priority after lark's real ForestSumVisitor on the
+   exported graph (cyclic forests included), and the walk model = pr_sv on the acyclic ones (gsum_diag codes 1-3). *)
+Definition C05_sum_walk_eq_recursive_full_statement : Prop :=
+  forall (tok : Type) (teqb : tok -> tok -> bool), (forall a b, teqb a b = true <-> a = b) ->
+  forall (fams : list (nlabel tok * family tok)) (rprio rorder : rule -> Z) (tprio : nat -> tok -> Z)
+         (rk : nlabel tok -> nat) (M : nat),
+  rankedb tok fams rk M = true -> closedb tok teqb fams = true -> notokb tok fams = true ->
+  forall root lbl,
+    let st := sum_walk tok teqb fams rprio rorder tprio root in
+    look_sym tok teqb (sv_sym tok st) lbl <> None ->
+    walk_pr tok teqb tprio st lbl = pr_sv tok teqb fams rprio tprio M lbl.
